@@ -8,14 +8,16 @@ def atoms (s : Option Sexp) : List String := match s with
   | some x => x.args.filterMap Sexp.asAtom?
   | none => []
 
-/-- `(disk (file "name" ("EGetter" m…) …) …)` -/
+/-- `(disk (file "name" ("EGetter" (embeds i…) (methods m…)) …) …)` -/
 def parseDisk (s : Option Sexp) : Disk :=
   match s with
   | none => []
   | some d => d.args.filterMap (fun f => match f with
     | .list (.atom "file" :: .atom n :: defs) =>
       some { name := n, defs := defs.filterMap (fun d => match d with
-        | .list (.atom i :: ms) => some (i, ms.filterMap Sexp.asAtom?)
+        | .list (.atom i :: r) =>
+          let x := Sexp.list (.atom "x" :: r)
+          some (i, { embeds := atoms (x.field? "embeds"), methods := atoms (x.field? "methods") })
         | _ => none) }
     | _ => none)
 
@@ -75,9 +77,10 @@ def showMOut (n : String) (o : MOut) : List (String × String) :=
 
 /-- model lines = the combined run; spec lines = one process per type; `same:T` = the combined run agrees on T
     with `base` (the separate processes; for a permuted list: the combined run over the original list) -/
-def linesOf {τ ω : Type} [DecidableEq ω] (nameOf : τ → String) (showO : String → ω → List (String × String))
+def linesOf {τ ω : Type} (nameOf : τ → String) (showO : String → ω → List (String × String))
     (comb sep base : List (τ × ω)) : List (String × String) × List (String × String) :=
-  let find (l : List (τ × ω)) (n : String) : Option ω := (l.find? (fun p => nameOf p.1 == n)).map (·.2)
+  -- two outputs are the same file content iff everything that is printed agrees (what `showO` lists)
+  let find (l : List (τ × ω)) (n : String) : Option (List (String × String)) := (l.find? (fun p => nameOf p.1 == n)).map (fun p => showO "" p.2)
   let names := (sep.map (fun p => nameOf p.1) ++ comb.map (fun p => nameOf p.1)).eraseDups
   (comb.flatMap (fun p => showO (nameOf p.1) p.2)
       ++ names.map (fun n => ("same:" ++ n, toString (decide (find comb n = find base n)))),
